@@ -1602,8 +1602,15 @@ func checkEquality(v1, v2 reflect.Value) bool {
 		return true
 	case reflect.Func:
 		return v1.IsNil() && v2.IsNil()
+	case reflect.Complex64, reflect.Complex128:
+		return (v2.Kind() == reflect.Complex64 || v2.Kind() == reflect.Complex128) && v1.Complex() == v2.Complex()
+	case reflect.Chan, reflect.UnsafePointer:
+		return v2.Kind() == kind && v1.Pointer() == v2.Pointer()
 	default:
-		// Normal equality suffices
+		// Normal equality suffices (where the values can be taken out: not from unexported struct fields)
+		if !v1.CanInterface() || !v2.CanInterface() {
+			return false
+		}
 		return v1.Interface() == v2.Interface()
 	}
 }
